@@ -603,13 +603,13 @@ func refHolds(d bson.D, f bson.D) bool { return refHoldsAt(d, f) }
 // ---------------------------------------------------------------------------
 // the domain D1–D4 and its finding classes (RefMatch.core_op with flags)
 
-// index: the remaining finding class.  The three old* switches re-impose the
+// index: count a numeric index into an array of documents as NO fan-out (off
+// everywhere; kept as the twin of RefMatch.f_index).  The three old* switches re-impose the
 // exclusions of the fan-out classes that were repaired in lungo; they are used
 // only to NAME a regression (coreDisagreementSignature), never for the domain.
 type refFlags struct{ index, oldTypeArray, oldExists, oldSize bool }
 
 var refStrict = refFlags{}
-var refLenient = refFlags{index: true}
 
 func refD1(v interface{}) bool {
 	switch x := v.(type) {
@@ -839,13 +839,15 @@ func refCoreGen(fl refFlags, d bson.D, f bson.D) bool {
 	return refD1(d) && refD3(d) && refCoreFilter(fl, d, f)
 }
 
-// RefMatch.domain_class: "core", a finding signature, or "" (outside D1–D4)
+// RefMatch.domain_class: "core" (inside the property's domain D1–D4) or ""
+// (outside).  A numeric segment that indexes into an array holding documents
+// counts as fan-out for D2 (refStrict): by D3 such a segment addresses a
+// position only, and the reference's second reading of it as a field name is
+// not semantics the property states, so pairs with a null/document/array
+// operand on such a path are not compared with the reference.
 func refDomainClass(d bson.D, f bson.D) string {
 	if refCoreGen(refStrict, d, f) {
 		return "core"
 	}
-	if !refCoreGen(refLenient, d, f) {
-		return ""
-	}
-	return "C10:null-with-index-into-document-array"
+	return ""
 }
